@@ -162,7 +162,7 @@ theorem foldl_registerPM_ok (cf : Config) (exts : List PM) (l : List PM) (reg : 
     exact ih _ (registerPM_ok hreg (hl a List.mem_cons_self)) (fun m hm => hl m (List.mem_cons_of_mem _ hm))
 
 theorem Inv.init (i : Input) : Inv i.cf (allOps i) (i.reg ++ i.cf.cloud) (initCfg i) := by
-  refine ⟨?_, ?_, ?_, ?_, ?_, ?_, ?_, ?_, ?_, ?_, ?_, ?_⟩
+  refine ⟨?_, ?_, ?_, ?_, ?_, ?_, ?_, ?_, ?_, ?_, ?_, ?_, ?_, ?_⟩
   · intro t; exact TInv_idle _ _ _ _
   · intro t o ho; exact mem_allOps i t o ho
   · intro n o hb; simp [initCfg, initStore] at hb
@@ -176,6 +176,8 @@ theorem Inv.init (i : Input) : Inv i.cf (allOps i) (i.reg ++ i.cf.cloud) (initCf
   · intro t t' n _ h1; simp [initCfg, PC.createId] at h1
   · intro _ t t' n _ h1; obtain ⟨_, _, _, h2⟩ := h1; simp [initCfg, PC.claimed] at h2
   · intro m hm; exact List.mem_append_right _ hm
+  · intro n hw; simp [initCfg, initStore] at hw
+  · intro n o hb; simp [initCfg, initStore] at hb
   · intro n o hb; simp [initCfg, initStore] at hb
   · intro n o hb; simp [initCfg, initStore] at hb
 
